@@ -90,6 +90,16 @@ CHECKS['C33'] = dict(
     note='Not decided: identifier case handling (runtime strings); I/O failures of disk-backed index creation.',
     design='§4 C33')
 
+CHECKS['C21'] = dict(
+    technique='key-agreement analysis (T10): per-variant key class of eq / partial_cmp / cmp / hash read from MIR match arms, fixed compatibility relation; field-set agreement for the temporal structs',
+    text='Because the impls touch payloads only through primitive comparisons, is_nan and to_bits, a finite per-variant case analysis '
+         'decides for ALL values whether equal values hash equally, whether eq pairs a variant only with itself, whether partial_cmp uses '
+         'the same primitive on the same payload as eq, whether cmp has a NaN fallback per float variant and an injective type-tag table, '
+         'and whether the temporal structs compare/hash the same field sets field-wise.',
+    note='Assumes std primitive impls (integer/bool/String Eq, Ord, Hash) are mutually consistent. One genuine defect was repaired '
+         '(fix: -0.0 hashing), one is test-pinned and listed (Interval).',
+    design='§4 C21')
+
 NOT_APPLICABLE = {
     'C01': 'Equality of result multisets with a reference engine is a value-level semantic equivalence over all queries and data; no structural necessary condition beyond those claimed under C06/C21/C24 exists and a static rule cannot stand in for an oracle.',
     'C03': 'Columnar-vs-row agreement is determined by computed values (empty input, NULL handling, sums); a rejected shape falls back safely, so no table-agreement obligation exists whose breach necessarily changes results.',
